@@ -989,6 +989,27 @@ def pair_clash_schemas(sparse=False):
     build(pre + "_data", lambda a, b, nid: None if a == b else ([], [grp(a, nid)], [Data(b, nid(), "varDataEncoding")]))
     build(pre + "_indata", lambda a, b, nid: ([], [grp(a, nid, data=[Data(b, nid(), "varDataEncoding")])], []))
     if sparse:
+        # a message that shares its name with one of its own members (so the message class gets mangled) while
+        # earlier messages' groups already occupy the mangled candidates
+        k = 0
+        for X in ("X", "X_entry", "X_0"):
+            for earlier in ("two-groups-named-X", "group-named-X_0", "group-named-X_0-and-X_1", "none"):
+                for member in ("field", "group", "data"):
+                    nid = _ids()
+                    msgs = []
+                    if earlier == "two-groups-named-X":
+                        msgs += [Message("E1", 1, [], [grp(X, nid)], []), Message("E2", 2, [], [grp(X, nid)], [])]
+                    elif earlier == "group-named-X_0":
+                        msgs += [Message("E1", 1, [], [grp(X + "_0", nid)], [])]
+                    elif earlier == "group-named-X_0-and-X_1":
+                        msgs += [Message("E1", 1, [], [grp(X + "_0", nid), grp(X + "_1", nid)], [])]
+                    fs = [Field(X, nid(), "uint16")] if member == "field" else [Field("f", nid(), "uint8")]
+                    gs = [grp(X, nid)] if member == "group" else []
+                    ds = [Data(X, nid(), "varDataEncoding")] if member == "data" else []
+                    msgs.append(Message(X, 9, fs, gs, ds))
+                    msgs.append(Message("L1", 10, [], [grp(X, nid)], []))
+                    finish("ps_msgself_%d" % k, msgs)
+                    k += 1
         return out
     # message names from the pool against group / field / data names
     nid = _ids()
